@@ -429,6 +429,8 @@ class IRGenerator:
             return 'namespace'
         elif isinstance(item, AstAnnotationTypeDef):
             return 'annotation type'
+        elif isinstance(item, AstAnnotationDef):
+            return 'annotation'
         else:
             raise AssertionError('unhandled type %r' % item)
 
@@ -1215,6 +1217,10 @@ class IRGenerator:
         elif isinstance(obj, ApiRoutesByVersion):
             raise InvalidSpec('A route cannot be referenced here.',
                               *loc)
+        elif not isinstance(obj, DataType):
+            # annotations and annotation types share the symbol table
+            raise InvalidSpec(
+                '%s is not a type.' % quote(type_ref.name), *loc)
         elif type_ref.args[0] or type_ref.args[1]:
             # An instance of a type cannot have any additional
             # attributes specified.
